@@ -248,3 +248,21 @@ const (
 	cfgKindRangeBody = cfg.KindRangeBody
 	cfgKindRangeLoop = cfg.KindRangeLoop
 )
+
+// lenPositive interprets a comparison of a length (non-negative) with a
+// constant as "length >= 1": returns the edge (0 true / 1 false) on which
+// the length is known to be positive.
+func lenPositive(cmp core.Cmp) (edge int, ok bool) {
+	if K, ge, k := cmpThreshold(cmp); k && K == 1 {
+		return ge, true
+	}
+	if cmp.Val != nil && cmp.Val.String() == "0" {
+		switch cmp.Op {
+		case token.NEQ:
+			return 0, true
+		case token.EQL:
+			return 1, true
+		}
+	}
+	return 0, false
+}
